@@ -229,6 +229,63 @@ def modifyM {α} [Inhabited α] (a : Array α) (i : Nat) (f : α → Option α) 
     | none => none
     | some y => some (a.setIfInBounds i y)
 
+/-- first size class of `new`: the two cursors of prime `idx` are appended. -/
+def newSmallStep (r1 r2 : Array Nat) (offs : Array Nat) (idx : Nat) : Option (Array Nat) := do
+  let o1 ← r1[idx]?
+  let o2 ← r2[idx]?
+  let offs := (offs.push (o1 % 65536)).push (if o1 ≠ o2 then o2 % 65536 else NONE)
+  if offs.size ≠ 2 * idx + 2 then none else some offs                -- debug_assert
+
+/-- second size class of `new`: all hits of prime `pidx` are registered in the table of its class. -/
+def newLargeStep (fb : FB) (r1 r2 : Array Nat) (interval : Nat) (table : Table) (pidx : Nat) : Option Table := do
+  let o1 ← r1[pidx]?
+  let o2 ← r2[pidx]?
+  let p ← fb.primes[pidx]?
+  if o1 = o2 then none                                               -- debug_assert
+  let offsets ← largeOffsets interval p o1 o2
+  offsets.foldlM (fun t off => t.add off (pidx % 2 ^ 32)) table
+
+/-- third size class of `new`. -/
+def newVLargeStep (fb : FB) (r1 r2 : Array Nat) (interval : Nat) (table : LTable) (pidx : Nat) : Option LTable := do
+  let o1 ← r1[pidx]?
+  let o2 ← r2[pidx]?
+  let p ← fb.primes[pidx]?
+  if o1 = o2 then none                                               -- debug_assert
+  let offsets ← vlargeOffsets interval p o1 o2
+  offsets.foldlM (fun t off => t.add off pidx) table
+
+/-- body of `for log in 0..=maxlog` of `new`. -/
+def newStep (fb : FB) (r1 r2 : Array Nat) (interval : Nat)
+    (st : Array Nat × Array Table × Array LTable) (log : Nat) : Option (Array Nat × Array Table × Array LTable) := do
+  let (offs, tables, ltables) := st
+  let idx1 ← fb.ibl[log]?
+  let idx2 ← fb.ibl[log + 1]?
+  if ¬ (idx2 ≤ r1.size ∧ idx2 ≤ r2.size ∧ idx2 ≤ fb.primes.size) then none   -- assert
+  if log < LARGE_LOG then
+    let offs ← (List.range' idx1 (idx2 - idx1)).foldlM (newSmallStep r1 r2) offs
+    some (offs, tables, ltables)
+  else if log < VLARGE_LOG then
+    let tables ← modifyM tables (log - LARGE_LOG) fun table =>
+      (List.range' idx1 (idx2 - idx1)).foldlM (newLargeStep fb r1 r2 interval) table
+    some (offs, tables, ltables)
+  else
+    let ltables ← modifyM ltables (log - VLARGE_LOG) fun table =>
+      (List.range' idx1 (idx2 - idx1)).foldlM (newVLargeStep fb r1 r2 interval) table
+    some (offs, tables, ltables)
+
+/-- the tables `new` starts from: recycled ones are checked and reset, otherwise fresh ones. -/
+def newTables (nblocks maxlog : Nat) (recycled : Option (Array Table × Array LTable)) :
+    Option (Array Table × Array LTable) :=
+  match recycled with
+  | some (ts, lts) =>
+    if ts.size ≠ (min (max (maxlog + 1) LARGE_LOG) VLARGE_LOG) - LARGE_LOG then none       -- assert_eq
+    else if ts.any (fun t => t.entries.size ≠ N_ENTRIES * nblocks) then none            -- assert_eq
+    else if lts.size ≠ max (maxlog + 1) VLARGE_LOG - VLARGE_LOG then none               -- assert_eq
+    else some (ts.map Table.reset, lts.map LTable.reset)
+  | none =>
+    some (Array.replicate (min (VLARGE_LOG - 1) maxlog + 1 - LARGE_LOG) (Table.new nblocks),
+          Array.replicate (maxlog + 1 - VLARGE_LOG) (LTable.new nblocks))
+
 /-- `Sieve::new(offset, nblocks, fbase, [roots1, roots2], recycled)` -/
 def new (offset : Int) (nblocks : Nat) (fb : FB) (r1 r2 : Array Nat)
     (recycled : Option (Array Table × Array LTable)) : Option State := do
@@ -236,49 +293,10 @@ def new (offset : Int) (nblocks : Nat) (fb : FB) (r1 r2 : Array Nat)
   let _nSmall ← fb.ibl[LARGE_LOG]?                                  -- idx_by_log[LARGE_PRIME_LOG]
   let maxprime ← fb.primes.back?                                   -- bound(): last().unwrap()
   let maxlog := bitlen maxprime
-  let (tables, ltables) ← match recycled with
-    | some (ts, lts) =>
-      if ts.size ≠ (min (max (maxlog + 1) LARGE_LOG) VLARGE_LOG) - LARGE_LOG then none       -- assert_eq
-      else if ts.any (fun t => t.entries.size ≠ N_ENTRIES * nblocks) then none            -- assert_eq
-      else if lts.size ≠ max (maxlog + 1) VLARGE_LOG - VLARGE_LOG then none               -- assert_eq
-      else some (ts.map Table.reset, lts.map LTable.reset)
-    | none =>
-      some (Array.replicate (min (VLARGE_LOG - 1) maxlog + 1 - LARGE_LOG) (Table.new nblocks),
-            Array.replicate (maxlog + 1 - VLARGE_LOG) (LTable.new nblocks))
+  let (tables, ltables) ← newTables nblocks maxlog recycled
   if nblocks * BLOCK ≥ 2 ^ 62 then none
-  let interval := nblocks * BLOCK
-  let (offs, tables, ltables) ← (List.range' 0 (maxlog + 1)).foldlM (fun (st : Array Nat × Array Table × Array LTable) log => do
-    let (offs, tables, ltables) := st
-    let idx1 ← fb.ibl[log]?
-    let idx2 ← fb.ibl[log + 1]?
-    if ¬ (idx2 ≤ r1.size ∧ idx2 ≤ r2.size ∧ idx2 ≤ len) then none   -- assert
-    if log < LARGE_LOG then
-      let offs ← (List.range' idx1 (idx2 - idx1)).foldlM (fun (offs : Array Nat) idx => do
-        let o1 ← r1[idx]?
-        let o2 ← r2[idx]?
-        let offs := (offs.push (o1 % 65536)).push (if o1 ≠ o2 then o2 % 65536 else NONE)
-        if offs.size ≠ 2 * idx + 2 then none else some offs) offs    -- debug_assert
-      some (offs, tables, ltables)
-    else if log < VLARGE_LOG then
-      let tables ← modifyM tables (log - LARGE_LOG) fun table =>
-        (List.range' idx1 (idx2 - idx1)).foldlM (fun (table : Table) pidx => do
-          let o1 ← r1[pidx]?
-          let o2 ← r2[pidx]?
-          let p ← fb.primes[pidx]?
-          if o1 = o2 then none                                      -- debug_assert
-          let offsets ← largeOffsets interval p o1 o2
-          offsets.foldlM (fun t off => t.add off (pidx % 2 ^ 32)) table) table
-      some (offs, tables, ltables)
-    else
-      let ltables ← modifyM ltables (log - VLARGE_LOG) fun table =>
-        (List.range' idx1 (idx2 - idx1)).foldlM (fun (table : LTable) pidx => do
-          let o1 ← r1[pidx]?
-          let o2 ← r2[pidx]?
-          let p ← fb.primes[pidx]?
-          if o1 = o2 then none                                      -- debug_assert
-          let offsets ← vlargeOffsets interval p o1 o2
-          offsets.foldlM (fun t off => t.add off pidx) table) table
-      some (offs, tables, ltables)) (#[], tables, ltables)
+  let (offs, tables, ltables) ←
+    (List.range' 0 (maxlog + 1)).foldlM (newStep fb r1 r2 (nblocks * BLOCK)) (#[], tables, ltables)
   let idxskip := 2 * ((fb.primes.toList.findIdx? (fun p => p > pskip len)).getD len)
   some { offset := offset, nblocks := nblocks, blkNo := 0, idxskip := idxskip,
          lo := offs, loPrev := offs, tables := tables, ltables := ltables }
@@ -286,35 +304,37 @@ def new (offset : Int) (nblocks : Nat) (fb : FB) (r1 r2 : Array Nat)
 /-- `recycle` -/
 def recycle (s : State) : Array Table × Array LTable := (s.tables, s.ltables)
 
+/-- body of the loop of `rehash` over the factor base. -/
+def rehashStep (fb : FB) (r1 r2 : Array Nat) (interval : Nat)
+    (st : Array Table × Array LTable) (pidx : Nat) : Option (Array Table × Array LTable) := do
+  let (tables, ltables) := st
+  let p ← fb.primes[pidx]?
+  if p < BLOCK then some (tables, ltables)
+  else
+    let l := bitlen p
+    if l < VLARGE_LOG then
+      if l < LARGE_LOG then none                                     -- l - LARGE_PRIME_LOG underflows
+      else
+        let tables ← modifyM tables (l - LARGE_LOG) fun table => do
+          let o1 ← r1[pidx]?
+          let o2 ← r2[pidx]?
+          let offsets ← vlargeOffsets interval p o1 o2
+          offsets.foldlM (fun t off => t.add off (pidx % 2 ^ 32)) table
+        some (tables, ltables)
+    else
+      let ltables ← modifyM ltables (l - VLARGE_LOG) fun table => do
+        let o1 ← r1[pidx]?
+        let o2 ← r2[pidx]?
+        let offsets ← vlargeOffsets interval p o1 o2
+        offsets.foldlM (fun t off => t.add off pidx) table
+      some (tables, ltables)
+
 /-- `rehash(roots)` -/
 def rehash (fb : FB) (s : State) (r1 r2 : Array Nat) : Option State :=
   if s.nblocks = 0 then some { s with blkNo := 0 }
   else do
-    let interval := s.nblocks * BLOCK
-    let tables := s.tables.map Table.reset
-    let ltables := s.ltables.map LTable.reset
-    let (tables, ltables) ← (List.range' 0 fb.primes.size).foldlM (fun (st : Array Table × Array LTable) pidx => do
-      let (tables, ltables) := st
-      let p ← fb.primes[pidx]?
-      if p < BLOCK then some (tables, ltables)
-      else
-        let l := bitlen p
-        if l < VLARGE_LOG then
-          if l < LARGE_LOG then none                                 -- l - LARGE_PRIME_LOG underflows
-          else
-            let tables ← modifyM tables (l - LARGE_LOG) fun table => do
-              let o1 ← r1[pidx]?
-              let o2 ← r2[pidx]?
-              let offsets ← vlargeOffsets interval p o1 o2
-              offsets.foldlM (fun t off => t.add off (pidx % 2 ^ 32)) table
-            some (tables, ltables)
-        else
-          let ltables ← modifyM ltables (l - VLARGE_LOG) fun table => do
-            let o1 ← r1[pidx]?
-            let o2 ← r2[pidx]?
-            let offsets ← vlargeOffsets interval p o1 o2
-            offsets.foldlM (fun t off => t.add off pidx) table
-          some (tables, ltables)) (tables, ltables)
+    let (tables, ltables) ← (List.range' 0 fb.primes.size).foldlM (rehashStep fb r1 r2 (s.nblocks * BLOCK))
+      (s.tables.map Table.reset, s.ltables.map LTable.reset)
     some { s with blkNo := 0, tables := tables, ltables := ltables }
 
 /-- `next_block` -/
@@ -367,36 +387,47 @@ def writeOpt (a : Array Nat) (i : Nat) : Option Nat → Option (Array Nat)
   | none => some a
   | some v => if i < a.size then some (a.setIfInBounds i v) else none
 
-/-- cursor part of `sieve_block`: `(lo, lo_prev)` after the call. -/
+/-- skipped (tiny) primes: cursor `i`. -/
+def skipStep (fb : FB) (loPrev : Array Nat) (lo : Array Nat) (i : Nat) : Option (Array Nat) := do
+  let pp ← fb.primes[i / 2]?
+  let c ← loPrev[i]?
+  let v ← stepSkipped pp c
+  if i < lo.size then some (lo.setIfInBounds i v) else none
+
+/-- classes `log ≤ 12`: prime `i` (cursors `2i`, `2i+1`). -/
+def pairStep (fb : FB) (loPrev : Array Nat) (lo : Array Nat) (i : Nat) : Option (Array Nat) := do
+  let p ← fb.primes[i]?
+  let off1 ← loPrev[2 * i]?
+  let off2 ← loPrev[2 * i + 1]?
+  let (w1, w2) ← stepPair p off1 off2
+  let lo ← writeOpt lo (2 * i) w1
+  writeOpt lo (2 * i + 1) w2
+
+def pairLog (fb : FB) (idxskip : Nat) (loPrev : Array Nat) (lo : Array Nat) (log : Nat) : Option (Array Nat) := do
+  let a ← fb.ibl[log]?
+  let iStart := max idxskip (2 * a)
+  let iEnd ← if log < 15 then (fb.ibl[log + 1]?).map (2 * ·) else some lo.size
+  (List.range' (iStart / 2) (iEnd / 2 - iStart / 2)).foldlM (pairStep fb loPrev) lo
+
+/-- classes 13..15: cursor `i`. -/
+def singleStep (fb : FB) (loPrev : Array Nat) (lo : Array Nat) (i : Nat) : Option (Array Nat) := do
+  let p ← fb.primes[i / 2]?
+  let off ← loPrev[i]?
+  let w ← stepSingle p off
+  writeOpt lo i w
+
+def singleLog (fb : FB) (idxskip : Nat) (loPrev : Array Nat) (lo : Array Nat) (log : Nat) : Option (Array Nat) := do
+  let a ← fb.ibl[log]?
+  let iStart := max idxskip (2 * a)
+  let iEnd ← if log < 15 then (fb.ibl[log + 1]?).map (2 * ·) else some lo.size
+  (List.range' iStart (iEnd - iStart)).foldlM (singleStep fb loPrev) lo
+
+/-- cursor part of `sieve_block`: `(lo, lo_prev)` after the call (`mem::swap` first). -/
 def sieveCursors (fb : FB) (idxskip : Nat) (lo0 loPrev0 : Array Nat) : Option (Array Nat × Array Nat) := do
-  let lo := loPrev0                                                   -- mem::swap
-  let loPrev := lo0
-  let lo ← (List.range' 0 idxskip).foldlM (fun (lo : Array Nat) i => do
-    let pp ← fb.primes[i / 2]?
-    let c ← loPrev[i]?
-    let v ← stepSkipped pp c
-    if i < lo.size then some (lo.setIfInBounds i v) else none) lo
-  let lo ← (List.range' 2 11).foldlM (fun (lo : Array Nat) log => do
-    let a ← fb.ibl[log]?
-    let iStart := max idxskip (2 * a)
-    let iEnd ← if log < 15 then (fb.ibl[log + 1]?).map (2 * ·) else some lo.size
-    (List.range' (iStart / 2) (iEnd / 2 - iStart / 2)).foldlM (fun (lo : Array Nat) i => do
-      let p ← fb.primes[i]?
-      let off1 ← loPrev[2 * i]?
-      let off2 ← loPrev[2 * i + 1]?
-      let (w1, w2) ← stepPair p off1 off2
-      let lo ← writeOpt lo (2 * i) w1
-      writeOpt lo (2 * i + 1) w2) lo) lo
-  let lo ← (List.range' 13 3).foldlM (fun (lo : Array Nat) log => do
-    let a ← fb.ibl[log]?
-    let iStart := max idxskip (2 * a)
-    let iEnd ← if log < 15 then (fb.ibl[log + 1]?).map (2 * ·) else some lo.size
-    (List.range' iStart (iEnd - iStart)).foldlM (fun (lo : Array Nat) i => do
-      let p ← fb.primes[i / 2]?
-      let off ← loPrev[i]?
-      let w ← stepSingle p off
-      writeOpt lo i w) lo) lo
-  some (lo, loPrev)
+  let lo ← (List.range' 0 idxskip).foldlM (skipStep fb lo0) loPrev0
+  let lo ← (List.range' 2 11).foldlM (pairLog fb idxskip lo0) lo
+  let lo ← (List.range' 13 3).foldlM (singleLog fb idxskip lo0) lo
+  some (lo, lo0)
 
 /-- `sieve_block` (the byte array `blk` is not modelled; the slices of the bucket tables the code
 reads must exist). -/
@@ -424,37 +455,46 @@ def isFactor (fb : FB) (s : State) (r1 r2 : Array Nat) (offset pidx : Nat) : Opt
     let b ← r2[pidx]?
     some (o = b)
 
-/-- prime indices attached to the reported position `r` (order of the pushes of the code). -/
+/-- primes below BLOCK_SIZE/2: `modu16(r) == off1 || modu16(r) == off2` (modu16 exact: C08). -/
+def smallTest (fb : FB) (s : State) (r : Nat) (acc : List Nat) (i : Nat) : Option (List Nat) := do
+  let p ← fb.primes[i]?                                              -- divs.get_unchecked(i)
+  let off1 ← s.loPrev[2 * i]?
+  let off2 ← s.loPrev[2 * i + 1]?
+  let rmod := r % p
+  some (if rmod = off1 ∨ rmod = off2 then i :: acc else acc)
+
+/-- primes above BLOCK_SIZE/2: `r == off || r as u32 == off as u32 + p as u32` with `p = primes[pidx] as u16`. -/
+def midTest (fb : FB) (s : State) (r : Nat) (acc : List Nat) (i : Nat) : Option (List Nat) := do
+  let off ← s.loPrev[i]?
+  let p ← fb.primes[i / 2]?
+  some (if r = off ∨ r = off + p % 65536 then (i / 2) :: acc else acc)
+
+/-- `if is_factor(r, pidx) { facs[j].push(pidx) }` over the candidate indices. -/
+def filt (fb : FB) (s : State) (r1 r2 : Array Nat) (r : Nat) (acc : List Nat) (cands : List Nat) : Option (List Nat) :=
+  cands.foldlM (fun (acc : List Nat) pidx => do
+    let ok ← isFactor fb s r1 r2 r pidx
+    some (if ok then pidx :: acc else acc)) acc
+
+def tableStep (fb : FB) (s : State) (r1 r2 : Array Nat) (r : Nat) (acc : List Nat) (tidx : Nat) : Option (List Nat) := do
+  let t ← s.tables[tidx]?
+  let idx1 ← fb.ibl[tidx + LARGE_LOG]?
+  let idx2 ← fb.ibl[tidx + LARGE_LOG + 1]?
+  let p8s ← t.lookup (s.blkNo * BLOCK) r
+  p8s.foldlM (fun acc p8 => filt fb s r1 r2 r acc (candidates idx1 idx2 p8)) acc
+
+def ltableStep (fb : FB) (s : State) (r1 r2 : Array Nat) (r : Nat) (acc : List Nat) (t : LTable) : Option (List Nat) := do
+  let p16s ← t.lookup s.blkNo r
+  p16s.foldlM (fun acc p16 => filt fb s r1 r2 r acc (lcandidates fb.primes.size p16)) acc
+
+/-- prime indices attached to the reported position `r` (pushed in the order of the code). -/
 def factorsOf (fb : FB) (s : State) (r1 r2 : Array Nat) (r : Nat) : Option (List Nat) := do
   let n15 ← fb.ibl[15]?
-  -- primes below BLOCK_SIZE/2
-  let small ← (List.range' 0 n15).foldlM (fun (acc : List Nat) i => do
-    let p ← fb.primes[i]?                                            -- divs.get_unchecked(i)
-    let off1 ← s.loPrev[2 * i]?
-    let off2 ← s.loPrev[2 * i + 1]?
-    let rmod := r % p                                                -- modu16 (C08)
-    some (if rmod = off1 ∨ rmod = off2 then i :: acc else acc)) []
-  -- primes above BLOCK_SIZE/2: `r == off || r as u32 == off as u32 + p as u32` with `p as u16`
-  let mid ← (List.range' (2 * n15) (s.loPrev.size - 2 * n15)).foldlM (fun (acc : List Nat) i => do
-    let off ← s.loPrev[i]?
-    let p ← fb.primes[i / 2]?
-    some (if r = off ∨ r = off + p % 65536 then (i / 2) :: acc else acc)) small
+  let small ← (List.range' 0 n15).foldlM (smallTest fb s r) []
+  let mid ← (List.range' (2 * n15) (s.loPrev.size - 2 * n15)).foldlM (midTest fb s r) small
   if s.tables.size = 0 then some mid.reverse
   else
-    let baseOff := s.blkNo * BLOCK
-    let filt := fun (acc : List Nat) (cands : List Nat) =>
-      cands.foldlM (fun (acc : List Nat) pidx => do
-        let ok ← isFactor fb s r1 r2 r pidx
-        some (if ok then pidx :: acc else acc)) acc
-    let acc ← (List.range' 0 s.tables.size).foldlM (fun (acc : List Nat) tidx => do
-      let t ← s.tables[tidx]?
-      let idx1 ← fb.ibl[tidx + LARGE_LOG]?
-      let idx2 ← fb.ibl[tidx + LARGE_LOG + 1]?
-      let p8s ← t.lookup baseOff r
-      p8s.foldlM (fun acc p8 => filt acc (candidates idx1 idx2 p8)) acc) mid
-    let acc ← s.ltables.toList.foldlM (fun (acc : List Nat) t => do
-      let p16s ← t.lookup s.blkNo r
-      p16s.foldlM (fun acc p16 => filt acc (lcandidates fb.primes.size p16)) acc) acc
+    let acc ← (List.range' 0 s.tables.size).foldlM (tableStep fb s r1 r2 r) mid
+    let acc ← s.ltables.toList.foldlM (ltableStep fb s r1 r2 r) acc
     some acc.reverse
 
 /-- the factor lists `smooths` returns for the reported positions `res`. -/
